@@ -7,7 +7,7 @@
    deletion-mark test; both are tied to the real IgnoreDeletionMarkFilter +
    DefaultDeduplicateFilter by the C34 correspondence check.  The constants
    (flag defaults, the compactor's own deleteDelay/2) come from Gen/C34.v. *)
-From Coq Require Import ZArith List Bool Lia.
+From Coq Require Import String ZArith List Bool Lia.
 Import ListNotations.
 From Verif Require Import Lib.Corr Gen.C34 Model.C31.
 Open Scope Z_scope.
@@ -15,7 +15,7 @@ Open Scope Z_scope.
 (* a block in the bucket: the C31 block (ULID, group, sources) and its deletion mark time *)
 Record mblk := mk_mblk { blk_of : blk; mark : option Z }.
 
-Definition mk_b (i g : Z) (s : list Z) : blk := mk_blk i g s.
+Definition mk_b (i g : Z) (s : list Z) (l : Z) : blk := mk_blk i g s l.
 
 Record gateway := mk_gw { view : list Z; last_sync : Z }.
 
@@ -195,6 +195,85 @@ Fixpoint first_rejected (b : list mblk) (ops : list lop) (k : nat) : option nat 
   | o :: r => match apply_op b o with Some b' => first_rejected b' r (S k) | None => Some k end
   end.
 
+(* ---- statement order in the compactor (events from Gen/C34.v) ------------------------
+   Group.compact: every call of cg.deleteBlock (= block.MarkForDeletion of a source)
+   comes after the loop that uploads the result blocks and returns on an upload
+   error, or sits under `if meta.Stats.NumSamples == 0` (sources without samples when
+   the compaction produced nothing). *)
+Definition sev := (string * string)%type.
+Definition sev_is (k t : string) (e : sev) : bool := String.eqb (fst e) k && String.eqb (snd e) t.
+
+Definition ends_nil (s : string) : bool :=
+  let n := String.length s in
+  Nat.leb 3 n && String.eqb (String.substring (n - 3) 3 s) "nil".
+
+Record ost := mk_ost {
+  o_ifs : list string;      (* conditions of the enclosing ifs, innermost first *)
+  o_loops : list nat;       (* enclosing loops: 0 nothing, 1 Upload seen, 2 in its error check, 3 checked *)
+  o_chk : nat;              (* if-depth of the error check *)
+  o_uploaded : bool;        (* a loop with a checked Upload has completed *)
+  o_marks : nat }.          (* deleteBlock calls seen after that *)
+
+Definition set_top (v : nat) (l : list nat) : list nat := match l with [] => [] | _ :: r => v :: r end.
+Definition top (l : list nat) : nat := match l with [] => 0%nat | v :: _ => v end.
+
+Definition ostep (s : ost) (e : sev) : option ost :=
+  let k := fst e in let t := snd e in
+  if String.eqb k "for" then Some (mk_ost (o_ifs s) (0%nat :: o_loops s) (o_chk s) (o_uploaded s) (o_marks s))
+  else if String.eqb k "endfor" then
+    Some (mk_ost (o_ifs s) (tl (o_loops s)) (o_chk s) (o_uploaded s || Nat.eqb (top (o_loops s)) 3) (o_marks s))
+  else if sev_is "call" "block.Upload" e then
+    Some (mk_ost (o_ifs s) (set_top 1 (o_loops s)) (o_chk s) (o_uploaded s) (o_marks s))
+  else if String.eqb k "if" then
+    if Nat.eqb (top (o_loops s)) 1 && String.eqb t "err != nil"
+    then Some (mk_ost (t :: o_ifs s) (set_top 2 (o_loops s)) (S (List.length (o_ifs s))) (o_uploaded s) (o_marks s))
+    else Some (mk_ost (t :: o_ifs s) (o_loops s) (o_chk s) (o_uploaded s) (o_marks s))
+  else if String.eqb k "return" then
+    if Nat.eqb (top (o_loops s)) 2 && negb (ends_nil t)
+    then Some (mk_ost (o_ifs s) (set_top 3 (o_loops s)) (o_chk s) (o_uploaded s) (o_marks s))
+    else Some s
+  else if String.eqb k "endif" then
+    let loops := if Nat.eqb (top (o_loops s)) 2 && Nat.eqb (List.length (o_ifs s)) (o_chk s)
+                 then set_top 0 (o_loops s) else o_loops s in
+    Some (mk_ost (tl (o_ifs s)) loops (o_chk s) (o_uploaded s) (o_marks s))
+  else if sev_is "call" "cg.deleteBlock" e then
+    if o_uploaded s then Some (mk_ost (o_ifs s) (o_loops s) (o_chk s) true (S (o_marks s)))
+    else if existsb (String.eqb "meta.Stats.NumSamples == 0") (o_ifs s) then Some s
+    else None
+  else Some s.
+
+Fixpoint oscan (s : ost) (evs : list sev) : option ost :=
+  match evs with
+  | [] => Some s
+  | e :: r => match ostep s e with Some s' => oscan s' r | None => None end
+  end.
+
+Definition upload_before_mark (evs : list sev) : bool :=
+  match oscan (mk_ost [] [] 0 false 0) evs with
+  | Some s => Nat.ltb 0 (o_marks s)
+  | None => false
+  end.
+
+Fixpoint sindex (f : sev -> bool) (l : list sev) : option nat :=
+  match l with
+  | [] => None
+  | e :: r => if f e then Some 0%nat else option_map S (sindex f r)
+  end.
+
+(* Syncer.GarbageCollect reads the deletion marks and the duplicate ids before it marks anything *)
+Definition gc_order_ok (evs : list sev) : bool :=
+  match sindex (sev_is "call" "s.ignoreDeletionMarkFilter.DeletionMarkBlocks") evs,
+        sindex (sev_is "call" "s.duplicateBlocksFilter.DuplicateIDs") evs,
+        sindex (sev_is "call" "block.MarkForDeletion") evs with
+  | Some a, Some b, Some c => Nat.ltb a c && Nat.ltb b c
+  | _, _, _ => false
+  end.
+
+Definition compactor_order_ok : bool :=
+  upload_before_mark group_compact_events
+  && existsb (sev_is "call" "block.MarkForDeletion") deleteBlock_events
+  && gc_order_ok GarbageCollect_events.
+
 (* ---- cases: one gateway sync of the real filter chain on a generated bucket ---- *)
 Inductive case :=
 | CSyncView (t delay : Z) (b : list mblk) (kept_ids : list Z)
@@ -223,6 +302,7 @@ Definition pred_ok (c : case) : bool :=
   match c with
   | CSyncView t delay b k => view_pred t delay b k
   | CMarkLog b ops _ _ =>
+      compactor_order_ok &&
       (* every step the real compactor took is a step of the protocol: in particular
          a block is marked only while all its sources are in other unmarked blocks *)
       match apply_log b ops with Some _ => true | None => false end
